@@ -314,6 +314,14 @@ EXT_SIGS = {
     "numpy.hstack": ("tup",),
     "numpy.vstack": ("tup",),
 }
+# leading parameter names of external *methods* that the code may pass by position or by keyword (pandas / numpy, trusted table)
+METHOD_SIGS = {
+    "combine": ("other", "func"), "where": ("cond", "other"), "mask": ("cond", "other"), "dot": ("other",), "apply": ("func",),
+    "transform": ("func",), "agg": ("func",), "aggregate": ("func",), "add": ("other",),
+    "sub": ("other",), "mul": ("other",), "div": ("other",), "clip": ("lower", "upper"), "astype": ("dtype",), "reshape": ("shape",),
+    "isin": ("values",), "map": ("arg",), "fillna": ("value",), "quantile": ("q",), "choice": ("a",), "randint": ("low", "high"),
+    "integers": ("low", "high"), "union": ("other",), "join": ("iterable",), "format": (),
+}
 # functions whose first argument is a sequence of arrays: a list and a tuple of the same items are the same call
 SEQ_ARG_FUNCS = {"torch.cat", "torch.concat", "tensorflow.concat", "numpy.concatenate", "numpy.hstack", "numpy.vstack", "numpy.stack",
                  "pandas.concat", "numpy.column_stack"}
@@ -456,6 +464,9 @@ class Canon:
             base = self.canon(a[0])
             if a[1] in TRANSPARENT_ATTRS:
                 return base
+            if a[1] == "size" and a[0].op == "call" and a[0].args[0].op == "global" and a[0].args[0].args[0] == "numpy.unique" \
+                    and not dict(a[0].args[2]).get("axis"):
+                return self.canon(mk("call", glob("builtins.len"), (a[0],), ()))   # np.unique(x) is 1-d: .size is len()
             if a[1] == "T":
                 return base if self.transparent_T else mk("fn", "T", base)
             return mk("attr", base, a[1])
@@ -495,6 +506,23 @@ class Canon:
             return self._call(t)
         if op in ("tuple", "list"):
             return mk(op, tuple(self.canon(x) for x in a[0]))
+        if op == "fstr":
+            # f"{a}={v}" is str(a) + "=" + str(v): fold into the normal form of string concatenation
+            acc = None
+            for part in a[0]:
+                if part.op == "fmtval" and part.args[1] in (-1, 115) and part.args[2] is NONE:
+                    piece = self.canon(mk("call", glob("builtins.str"), (part.args[0],), ()))
+                elif part.op == "const":
+                    piece = part
+                else:
+                    acc = None
+                    break
+                acc = piece if acc is None else self._arith("+", acc, piece)
+            if acc is not None:
+                return acc
+            return mk("fstr", tuple(self.canon(x) for x in a[0]))
+        if op == "fmtval":
+            return mk("fmtval", self.canon(a[0]), a[1], self.canon(a[2]) if isinstance(a[2], T) else a[2])
         if op == "listappend":
             # xs.append(v) leaves xs + [v]
             return mk("fn", "seqcat", self.canon(a[0]), mk("list", (self.canon(a[1]),)))
@@ -537,6 +565,11 @@ class Canon:
     def _arith(self, o, l: T, r: T) -> T:
         # string concatenation and list concatenation are not arithmetic
         if o == "+" and (_is_str(l) or _is_str(r)):
+            if l.op == "const" and r.op == "const" and isinstance(const_value(l), str) and isinstance(const_value(r), str):
+                return const(const_value(l) + const_value(r))
+            if l.op == "fn" and l.args[0] == "strcat" and l.args[2].op == "const" and r.op == "const" \
+                    and isinstance(const_value(l.args[2]), str) and isinstance(const_value(r), str):
+                return mk("fn", "strcat", l.args[1], const(const_value(l.args[2]) + const_value(r)))
             return mk("fn", "strcat", l, r)
         if o == "+" and (_is_seq(l) or _is_seq(r)):
             return mk("fn", "seqcat", l, r)  # list / tuple concatenation is not commutative
@@ -608,6 +641,12 @@ class Canon:
             if len(args) <= len(names) and not (set(names[:len(args)]) & given) and not any(a_.op == "starred" for a_ in args):
                 t = mk("call", f, (), tuple(kwargs) + tuple(zip(names[:len(args)], args)))
                 f, args, kwargs = t.args
+        if f.op == "global" and f.args[0] == "builtins.list" and len(args) == 1 and not kwargs and args[0].op == "call" \
+                and args[0].args[0].op == "global" and args[0].args[0].args[0] == "builtins.map" and len(args[0].args[1]) == 2 \
+                and not args[0].args[2]:
+            # list(map(f, xs)) is [f(x) for x in xs]
+            fn_, xs_ = args[0].args[1]
+            return self.canon(mk("comp", "list", mk("call", fn_, (mk("elem", xs_),), ()), ((xs_, ()),)))
         cargs = [self.canon(x) for x in args]
         if f.op == "global" and f.args[0] in SEQ_ARG_FUNCS and cargs and cargs[0].op == "list":
             cargs[0] = mk("tuple", cargs[0].args[0])
@@ -647,6 +686,15 @@ class Canon:
         elif f.op == "attr":
             recv = self.canon(f.args[0])
             m = f.args[1]
+            msig = METHOD_SIGS.get(m)
+            if msig and ckw:
+                kwd = dict(ckw)
+                while len(cargs) < len(msig) and msig[len(cargs)] in kwd:
+                    nm_ = msig[len(cargs)]
+                    cargs.append(kwd.pop(nm_))
+                    # keep `args` (the un-canonicalised arguments used by a few rewrites below) in step
+                    args = tuple(args) + (dict(kwargs)[nm_],)
+                ckw = tuple(sorted(kwd.items(), key=lambda kv: kv[0]))
             if m in TRANSPARENT_METHODS and not cargs and not ckw:
                 return recv
             if m == "astype" and len(args) == 1 and not ckw and (
@@ -660,6 +708,10 @@ class Canon:
                     (cargs or ckw[0][0] == "size"):
                 # RandomState.rand(n), .random_sample(n), .random_sample(size=n), .random(size=n): n uniform draws from the same stream
                 return mk("mcall", "rand", recv, (cargs[0] if cargs else ckw[0][1],), ())
+            if m in ("eq", "ne", "lt", "le", "gt", "ge") and len(cargs) == 1 and not ckw:
+                # Series.eq(c) is the element-wise `==`
+                o_ = {"eq": "==", "ne": "!=", "lt": "<", "le": "<=", "gt": ">", "ge": ">="}[m]
+                return self.canon(mk("cmp", o_, f.args[0], args[0]))
             if m == "mask" and len(cargs) == 2 and not ckw:
                 # df.mask(cond, value) is the value of df after `df[cond] = value` (on a copy)
                 return self.canon(mk("upd", f.args[0], args[0], args[1]))
